@@ -1,15 +1,15 @@
 \* quick tier generation: one behaviour per transition of the complete graph (all operation variants,
-\* map-order-dependent steps excluded) of LRU and Snappy>LRU over the backend.
+\* map-order-dependent steps excluded) of LRU (capacity 1, default TTL 1..2) over the backend.
 CONSTANTS
-  StackIds = {2, 8}
+  StackIds = {2}
   Caps = {1}
-  DTTLs = {2}
+  DTTLs = {1, 2}
   Keys = {"k1", "k2"}
   Values = {"a", "b"}
   TTLs = {1, 2}
   Deltas = {1}
   NViews = 2
-  PokeTTLs = {1}
+  PokeTTLs = {}
   MaxOps = 1000
   Full = TRUE
   DetOnly = TRUE
